@@ -843,6 +843,10 @@ def check_field(entry, key, mode, value, problems, where):
                 ok = as_hex(shown) == comp
         elif mode == "dump":
             ok = parse_dump(shown) == bytes(value)
+        elif mode == "dumpws":
+            # the payload as text that could not be taken as JSON: dumped with its padding / outer white space possibly removed
+            ws = b" \t\r\n\x0b\x0c\x00"
+            ok = parse_dump(shown).strip(ws) == bytes(value).strip(ws)
         elif mode == "mrulist":
             got = [int(t, 16) for t in re.findall(r"[0-9A-Fa-f]+", shown if isinstance(shown, str) else ",".join(map(str, shown)))] \
                 if value else []
@@ -878,7 +882,7 @@ def check_field(entry, key, mode, value, problems, where):
         v = value
         if mode == "name":
             v = "table[%#x] -> %r" % (value[1], value[0].get(value[1], value[2]))
-        elif mode == "dump":
+        elif mode in ("dump", "dumpws"):
             v = "dump of %d bytes" % len(value)
             shown = (shown[:3] if isinstance(shown, list) else shown)
         elif mode in ("hex",):
